@@ -801,6 +801,15 @@ class Exec:
             return r if isinstance(op, ast.Is) else z3.Not(r)
         if isinstance(a, MaskedV) and not isinstance(b, (ARef, MaskedV)):
             return MaskedV(self.map2(st, a.arr, b, lambda x, y: self.scalar_cmp(op, x, y), node, elem="bool"), a.mask)
+        from . import objects as _objects
+        if isinstance(a, (ORef, _objects.SObj)) and isinstance(op, (ast.Eq, ast.NotEq)):
+            # == / != between library objects: the left operand's own __eq__ (Python derives != from it), which must have a model in the registry
+            cls_ = st.heap[a.oid].cls if isinstance(a, ORef) else a.cls
+            m = self.registry.get(f"{cls_}.__eq__")
+            if m is None:
+                raise Undecided(f"== between objects of class {cls_}, whose __eq__ has no model in this task")
+            r = truth(m.fn(self, st, [a, b], {}, node))
+            return r if isinstance(op, ast.Eq) else z3.Not(r)
         if isinstance(a, ARef) or isinstance(b, ARef):
             return self.map2(st, a, b, lambda x, y: self.scalar_cmp(op, x, y), node, elem="bool")
         if isinstance(a, (NoneV, StrV, Tup, OptV, DictV)) or isinstance(b, (NoneV, StrV, Tup, OptV, DictV)):
